@@ -258,8 +258,10 @@ def tree(paths, as_list_root=False):
 
 
 # ---- reference dumper -------------------------------------------------------------------------------
-def ref_dump(lay, model, x, dump_field=None):
-    """Outer datum the documentation prescribes for object x under layout `lay`."""
+def ref_dump(lay, model, x, dump_field=None, omit_on_dumped=False):
+    """Outer datum the documentation prescribes for object x under layout `lay`.
+    omit_on_dumped=True gives what the known finding `omit-default-compares-dumped-value` produces instead: the sieve compares the
+    DUMPED field value with the raw default (used only to name that mechanism, never as the expectation)."""
     view = model.view(x)
     fb = {f.name: f for f in lay.fields}
 
@@ -282,7 +284,7 @@ def ref_dump(lay, model, x, dump_field=None):
                 f = fb[c]
                 if c not in view:
                     continue     # TypedDict: optional key absent
-                if lay.omit[c] and _eq_default(view[c], f):
+                if lay.omit[c] and _eq_default(value(c) if omit_on_dumped else view[c], f):
                     continue
                 out[k] = value(c)
         return out
